@@ -1483,7 +1483,7 @@ fn main() {
     for fault in all_faults.iter().filter(|x| few.contains(&x.label)) {
         for pl in ["top", "include", "component", "ancestor-block"] {
             for pre in PREFIXES {
-                for suf in [SUFFIXES[0], SUFFIXES[3]] {
+                for suf in if thorough { vec![SUFFIXES[0], SUFFIXES[3]] } else { vec![SUFFIXES[3]] } {
                     let p = plant_b(fault, pl, pre, suf, WRAPS[0], pre);
                     run.run_plant(&p, fault, &ctx);
                 }
